@@ -9,6 +9,7 @@ import (
 
 	"github.com/bnb-chain/tss-lib/v2/common"
 	eckg "github.com/bnb-chain/tss-lib/v2/ecdsa/keygen"
+	"github.com/bnb-chain/tss-lib/v2/tss"
 
 	"verif/internal/core"
 	"verif/internal/fix"
@@ -126,10 +127,14 @@ func predict(labels []string, x, m *big.Int) (sigClass, *big.Int) {
 
 func Run(r *core.Run) {
 	w := runtime.NumCPU()
+	// the process-wide default curve is deliberately NOT secp256k1: signing must use the curve of its parameters
+	tss.SetCurve(tss.Edwards())
+	r.Set("process_default_curve", "edwards25519 (the other curve)")
 	kcs := []keyCase{
 		{"generated(n=2,t=1,ids=small)", scen.EcKey("small", 2, 1, r.Seed), 1},
 		{"generated(n=3,t=1,ids=near-q)", scen.EcKey("near-q", 3, 1, r.Seed), 1},
 		{"generated(n=3,t=2,ids=large)", scen.EcKey("large", 3, 2, r.Seed), 2},
+		{"generated(n=3,t=1,ids=byte-boundary)", scen.EcKey("byte-boundary", 3, 1, r.Seed), 1},
 		{"vendored(n=5,t=2)", fix.EcFixtures(), 2},
 	}
 	if r.Tier == "thorough" {
